@@ -520,7 +520,10 @@ class SFTPFile(BufferedFile):
                 offset += chunk_size
                 size -= chunk_size
 
-        self._start_prefetch(read_chunks, max_concurrent_prefetch_requests)
+        if len(read_chunks) > 0:
+            self._start_prefetch(
+                read_chunks, max_concurrent_prefetch_requests
+            )
         # now we can just devolve to a bunch of read()s :)
         for x in chunks:
             self.seek(x[0])
